@@ -557,11 +557,12 @@ def judge_decoding(ctx, cases, results, stats, which):
                     continue
                 dest = {"": "", "-prefilled": " (destination pre-filled with other content)",
                         "-reused": " (destination reused from the previous decodes)"}[suffix]
-                stale = which == "spec2" and suffix != ""
+                altbool = which == "spec2" and '"udt"' not in json.dumps(c["T"])     # (true written as another non-zero byte)
+                stale = which == "spec2" and suffix != "" and not altbool
                 if which == "spec2":
-                    suffix += "-shortudt"
+                    suffix += "-truebyte" if altbool else "-shortudt"
                 src = "Unmarshal(%s of %s) into %s%s" % ("reference encoding" if which == "spec" else (
-                    "short reference encoding %s (trailing null UDT fields absent)" % hexs(c["spec2"]["b"])) if which == "spec2" else "Marshal output " + (
+                    ("reference encoding %s (true written as another non-zero byte)" if altbool else "short reference encoding %s (trailing null UDT fields absent)") % hexs(c["spec2"]["b"])) if which == "spec2" else "Marshal output " + (
                     "null" if res["st"] == "null" else hexs(res["b"])), show(c), kshape(tg["K"]), dest)
                 if d["st"] == "harness":
                     raise vf.Inconclusive("harness could not build target %s: %s" % (kshape(tg["K"]), d.get("err")))
